@@ -223,6 +223,9 @@ wake_due()
         else if (F.info.st == BLK_COND && F.timed && F.info.wake_ns <= g_now) {
             F.timed_out = true;
             F.info.st = RUNNABLE;
+        } else if (F.info.st == BLK_MUTEX && F.timed && F.info.wake_ns <= g_now) {
+            F.timed_out = true;
+            F.info.st = RUNNABLE;
         }
     }
 }
@@ -294,7 +297,7 @@ advance_time()
     uint64_t best = ~0ull;
     for (int i = 0; i < g_n; ++i) {
         Fiber& F = *g_f[i];
-        if (F.info.st == SLEEPING || (F.info.st == BLK_COND && F.timed))
+        if (F.info.st == SLEEPING || ((F.info.st == BLK_COND || F.info.st == BLK_MUTEX) && F.timed))
             if (F.info.wake_ns < best)
                 best = F.info.wake_ns;
     }
@@ -502,10 +505,35 @@ extern "C"
         }
         return EBUSY;
     }
-    int vp_mutex_timedlock(pthread_mutex_t* m, const struct timespec*)
+    // As glibc: a free mutex is taken without looking at the deadline; otherwise an invalid timespec is
+    // EINVAL (the caller does NOT hold the mutex then) and a passed deadline ETIMEDOUT.
+    int vp_mutex_timedlock(pthread_mutex_t* m, const struct timespec* ts)
     {
         sched_point(OP_LOCK, m);
-        return acquire(m);
+        if (owner_of(m) == 0 || g_cur < 0)
+            return acquire(m);
+        if (!ts || ts->tv_nsec < 0 || ts->tv_nsec >= 1000000000L)
+            return EINVAL;
+        uint64_t deadline = (uint64_t)ts->tv_sec * 1000000000ull + (uint64_t)ts->tv_nsec;
+        Fiber& F = *g_f[g_cur];
+        for (;;) {
+            if (owner_of(m) == 0) {
+                owner_of(m) = me();
+                F.timed = F.timed_out = false;
+                return 0;
+            }
+            if (g_now >= deadline) {
+                F.timed = F.timed_out = false;
+                return ETIMEDOUT;
+            }
+            F.timed = true;
+            F.timed_out = false;
+            F.info.wake_ns = deadline;
+            F.info.st = BLK_MUTEX;
+            F.info.op = OP_LOCK;
+            F.info.obj = m;
+            yield_to_main();
+        }
     }
     int vp_mutex_unlock(pthread_mutex_t* m)
     {
